@@ -1,2 +1,2 @@
 (** * C12 — exported state re-imports and preserves what users rely on (placeholder, filled below) *)
-From Irismod Require Import Genesis.Record.
+From Irismod Require Import Genesis.Check.
